@@ -36,7 +36,8 @@ void Encoder::setMessageType(const Packet& packet){
 
 std::vector<std::vector<uint8_t>> Encoder::getEncodedData()
 {
-    cmpFrames.back().resize(std::max(cmpFrames.back().size() - bytesLeft, minBytesPerMessage), 0);
+    if (!cmpFrames.empty())
+        cmpFrames.back().resize(std::max(cmpFrames.back().size() - bytesLeft, minBytesPerMessage), 0);
     auto frames = std::move(cmpFrames);
     clearEncodingMetadata(false);
     return frames;
